@@ -1104,7 +1104,7 @@ def _returns_in_tail_position(stmts):
     return tail(stmts)
 
 
-def _substitute_call(h, skip, body, rets, st, call, g, nm):
+def _substitute_call(h, skip, body, rets, st, call, g, nm, site=0):
     """(pre, body, post) statement lists that replace the whole-statement call `st` of helper `h` inside function `g`,
     or None if the call cannot be substituted (starred arguments, unmatched parameters)."""
     import copy as _copy
@@ -1153,7 +1153,11 @@ def _substitute_call(h, skip, body, rets, st, call, g, nm):
         elif isinstance(v_, ast.Name) and v_.id == p_:
             pass  # same name on both sides: the helper's re-binding is the caller's re-binding only if returned
         else:
-            new = p_ if p_ not in caller_names else f"{p_}__{nm}"
+            new = p_ if (p_ not in caller_names and site == 0) else f"{p_}__{nm}"
+            if site:
+                # (a further call site of the same helper in this caller: its argument gets its own temporary, so that each
+                # one is bound once and can be propagated)
+                new = f"{p_}__{nm}_{site + 1}"
             pre.append(ast.copy_location(ast.Assign(targets=[ast.Name(id=new, ctx=ast.Store())], value=v_), st))
             if new != p_:
                 rename[p_] = ast.Name(id=new, ctx=ast.Load())
@@ -1294,7 +1298,7 @@ def _inline_helpers(trees):
                                         sites.append((g, blk, st, call))
                     if len(sites) != n_refs_here:
                         continue
-                    subs = [_substitute_call(h, 0 if static else 1, body, rets, st, call, g, nm) for g, blk, st, call in sites]
+                    subs = [_substitute_call(h, 0 if static else 1, body, rets, st, call, g, nm, site=sum(1 for s0_ in sites[:i_] if s0_[0] is g)) for i_, (g, blk, st, call) in enumerate(sites)]
                     if any(s_ is None for s_ in subs):
                         continue
                     for (g, blk, st, call), (pre, new_body, post) in zip(sites, subs):
@@ -1405,7 +1409,7 @@ def _inline_module_helpers(trees):
                                         sites.append((g, blk, call, st))
                 if not sites or len(sites) > 6 or name_refs.get(nm, 0) != len(sites) + n_import_refs + table_refs:
                     continue
-                subs = [_substitute_call(h, 0, body, rets, st, call, g, nm) for g, blk, call, st in sites]
+                subs = [_substitute_call(h, 0, body, rets, st, call, g, nm, site=sum(1 for s0_ in sites[:i_] if s0_[0] is g)) for i_, (g, blk, call, st) in enumerate(sites)]
                 if any(s_ is None for s_ in subs):
                     continue
                 for (g, blk, call, st), (pre, new_body, post) in zip(sites, subs):
